@@ -414,6 +414,34 @@ def heights(tr, cls, d):
     return memo, resolve
 
 
+
+def model_runs(tr):
+    """every call of a method of a component object held in a cached quantity (`self.<quantity>.<method>(...)`, also through
+    helper methods of the class) made inside a cached-quantity body: (owner class, quantity, "<component>.<method>")"""
+    rows = []
+    for o in FRAMEWORKS:
+        info = tr.infos[o]
+        quants = {n for c in FRAMEWORKS for n in tr.all_quants[c]}
+
+        def calls(fn, seen):
+            acc = []
+            for nd in ast.walk(fn):
+                if isinstance(nd, ast.Call) and isinstance(nd.func, ast.Attribute):
+                    f = nd.func
+                    if isinstance(f.value, ast.Attribute) and isinstance(f.value.value, ast.Name) and f.value.value.id == "self" and f.value.attr in quants:
+                        acc.append(f"{f.value.attr}.{f.attr}")
+                    elif isinstance(f.value, ast.Name) and f.value.id == "self" and f.attr not in seen:
+                        for oo in tr.mro.get(o, [o]):
+                            h = tr.infos[oo].methods.get(f.attr)
+                            if h is not None:
+                                acc += calls(h, seen | {f.attr})
+                                break
+            return acc
+        for n, fn in sorted(info.quants.items()):
+            for c in sorted(set(calls(fn, set()))):
+                rows.append((o, n, c))
+    return rows
+
 def emit(out_lean, out_json):
     tr = Translator()
     ps, qs = tr.names()
@@ -465,6 +493,11 @@ def emit(out_lean, out_json):
                             "validate_reads": sorted({r[1] for r in direct_reads(d["validate"]) if r[0] != "s"})}
     L.append("def allDescs : List (String × ClassDesc) := [" + ", ".join(f'("{c}", desc{c})' for c in FRAMEWORKS) + "]")
     L.append("")
+    mr = model_runs(tr)
+    L.append("/-- component-method call sites inside cached quantities: (owner class, quantity, \"<component>.<method>\") -/")
+    L.append("def modelRuns : List (Nat × Name × String) := [" + ", ".join(f'({own[o]}, {idx[n]}, "{c}")' for o, n, c in mr) + "]")
+    L.append("")
+    js["model_runs"] = [list(r) for r in mr]
     L.append("/-- translator diagnostics (must be empty) -/")
     L.append("def unsupported : List String := [" + ", ".join(json.dumps(u) for u in tr.unsupported) + "]")
     L.append("end Hmf.Gen")
